@@ -25,7 +25,7 @@ RULE = (
 ASSUMPTIONS = [
     "the component cdf/icdf of the families are decided by C05/C08; here the model's own cdf is used for the back-map as the property states",
     "tolerance 1e-6 in standard-normal space or the representability bracket Phi(u) in [F(x-4ulp), F(x+4ulp)]",
-    "n-D contours explored up to n_points 80 (quick) / 200 (thorough); NSphere is quadratic in n_points",
+    "2-D contours up to n_points 1500 (point-wise back-map on ~200 of the points beyond 250); n-D contours explored up to n_points 80 (quick) / 200 (thorough); NSphere is quadratic in n_points",
     "parameters restricted to the metocean-plausible sub-ranges of DESIGN 3.1 (model-level property)",
 ]
 
@@ -92,7 +92,10 @@ def check_contour(case, ctx):
 
     # 3. Rosenblatt back-map through the model's own cdf, one point at a time
     worst = 0.0
-    for r in range(n_points):
+    rows = range(n_points)
+    if n_points > 250:  # long contours: shape / angles / norms for all points, the point-wise back-map for ~200 of them
+        rows = sorted(set(np.linspace(0, n_points - 1, 200).astype(int).tolist()) | {0, 1, n_points - 2, n_points - 1})
+    for r in rows:
         us = np.empty(n_dim)
         bracket_ok = True
         for k in range(n_dim):
@@ -172,7 +175,7 @@ def strat_2d(tier):
         lambda m, e, n, kind: dict(model=m, alpha=float(10.0**e) if e < -0.31 else 0.5, n_points=n, kind=kind),
         models.model_spec(n_dims=(2,)),
         st.floats(-8, -0.3),
-        st.one_of(st.integers(3, 12), st.integers(3, 200)),
+        st.one_of(st.integers(3, 12), st.integers(3, 200), st.integers(3, 200), st.integers(200, 1500)),  # users pass 360, 720, ...
         st.sampled_from(["IFORM", "ISORM"]),
     )
 
